@@ -176,7 +176,7 @@ macro_rules! inverse_harness {
 }
 inverse_harness!(inverse_law_2x2, 2, 2, 8);
 inverse_harness!(inverse_law_3x3, 3, 3, 9);
-inverse_harness!(inverse_law_4x4, 4, 4, 10);
+inverse_harness!(inverse_law_4x4, 4, 4, 13);
 
 /// Without the "does not climb above the root" precondition: only panic-freedom is asserted
 /// (Kani's built-in checks), documenting where `..` above the root goes.
